@@ -4,7 +4,7 @@
    Encoding: a universe U = list of all nodes of a pset (index = node id); a tree literal is a
    list of (id, ephemeral value) pairs. *)
 From Coq Require Import List ZArith NArith Bool.
-From DV Require Export Base.Corr Model.C11_GPTree.
+From DV Require Export Base.Corr Model.C11_GPTree Model.C11_PSet.
 Import ListNotations.
 Local Open Scope Z_scope.
 
@@ -57,7 +57,20 @@ Inductive case :=
 | CGen (U : list node) (ps : pset) (g : gexpr) (t : option Z) (ds : list draw) (obs : outcome lit)
 | COp (U : list node) (ps : pset) (oc : opcall) (inputs : list lit) (ds : list draw) (obs : outcome (list lit))
 | CLim (U : list node) (ps : pset) (k : lkey) (maxv : Z) (oc : opcall) (inputs : list lit)
-       (ds : list draw) (obs : outcome (list lit)).
+       (ds : list draw) (obs : outcome (list lit))
+| CPset (U : list node) (pairs : list (Z * Z)) (ops : list (bool * Z))
+        (oprims oterms : list (Z * list Z)) (tc pc : Z).
+
+(* issubclass as the list of all (a, b) with a a subclass of b *)
+Definition sub_of (pairs : list (Z * Z)) (a b : ty) : bool :=
+  existsb (fun p => N.eqb (Z.to_N (fst p)) a && N.eqb (Z.to_N (snd p)) b) pairs.
+Definition tbl_eqb (a b : list (ty * list node)) : bool :=
+  list_eqb (fun x y => N.eqb (fst x) (fst y) && nodes_eqb (snd x) (snd y)) a b.
+Definition pset_case (U : list node) (pairs : list (Z * Z)) (ops : list (bool * Z))
+           (oprims oterms : list (Z * list Z)) (tc pc : Z) : bool :=
+  let s := build (sub_of pairs) (map (fun o => (fst o, nth (Z.to_nat (snd o)) U dummy)) ops) in
+  tbl_eqb (s_prims s) (mktbl U oprims) && tbl_eqb (s_terms s) (mktbl U oterms) &&
+  Z.eqb (s_tc s) tc && Z.eqb (s_pc s) pc.
 
 Definition check (c : case) : bool :=
   match c with
@@ -72,4 +85,5 @@ Definition check (c : case) : bool :=
   | CLim U ps k maxv oc inputs ds obs =>
       agree (fun a o => trees_eqb a (map (mk U) o))
             (static_limit k maxv (run_op ps oc) (map (mk U) inputs) ds) obs
+  | CPset U pairs ops oprims oterms tc pc => pset_case U pairs ops oprims oterms tc pc
   end.
